@@ -117,6 +117,13 @@ def norm(t, depth=0):
                 return ("slice", norm(args[0], d), norm(args[1].args[4][0], d), norm(args[1].args[4][1], d))
             if vn == "Some" and f == "[T]::get" and args[1].op == "agg" and args[1].args[1] == "ops::RangeFrom":
                 return ("slice_from", norm(args[0], d), norm(args[1].args[4][0], d))
+            if vn == "Some" and f == "[T]::get" and args[1].op == "agg" and args[1].args[1] == "ops::RangeTo":
+                inner = norm(args[0], d)
+                n_ = norm(args[1].args[4][0], d)
+                if inner[0] == "slice_from":
+                    # the first n bytes of the tail from a: bytes [a, a+n)
+                    return ("slice", inner[1], inner[2], ("+",) + tuple(sorted((inner[2], n_), key=repr)))
+                return ("slice", inner, ("c", 0), n_)
             if vn == "Ok" and f in (_PROG[0].facts.fns if _PROG[0] else ()):
                 body = single_ok_payload(f)
                 if body is not None:
@@ -174,6 +181,12 @@ def norm(t, depth=0):
         return ("agg", adt or kind, vname, tuple(norm(f, d) for f in fields))
     if op == "call":
         f, g, args = a
+        import re as _re
+        m_ = _re.match(r"^(u16|u32|u64|u128|i16|i32|i64|i128|u8|i8)::swap_bytes$", f)
+        if m_ and len(args) == 1 and args[0].op == "call" and args[0].args[0] in (m_.group(1) + "::from_le_bytes", m_.group(1) + "::from_be_bytes"):
+            # reversing the bytes of the little-endian reading is the big-endian reading (and vice versa)
+            other = "from_be_bytes" if args[0].args[0].endswith("from_le_bytes") else "from_le_bytes"
+            return ("call", m_.group(1) + "::" + other, tuple(norm(x, d) for x in args[0].args[2]))
         return ("call", f, tuple(norm(x, d) for x in args))
     if op == "discr":
         return ("discr", norm(a[0], d))
